@@ -1,2 +1,6 @@
 def add_to(run):
     pass
+
+
+def add_termination(run):
+    pass
